@@ -63,7 +63,9 @@ def function_level(ctx):
     comps = [rng.choice(SEGS) if rng.random() < 0.7 else "".join(rng.choice(list("ab./~\\ 'é")) for _ in range(rng.randint(0, 5)))
              for _ in range(n // 3)]
     toks = ["".join(rng.choice("0123456789abcdefABCDEFg/.~") for _ in range(rng.choice([63, 64, 64, 64, 65, 0, 10]))) for _ in range(n // 10)]
-    toks += ["a" * 64, "0123456789abcdef" * 4, "." * 64, "/" * 64, "../" * 21 + "a", "A" * 64]
+    toks += ["a" * 64, "0123456789abcdef" * 4, "." * 64, "/" * 64, "../" * 21 + "a", "A" * 64, "x/" + "0123456789abcdef" * 4,
+             "../" + "0123456789abcdef" * 4, "/tmp/" + "0123456789abcdef" * 4, "0123456789abcdef" * 4 + "0", ("0123456789abcdef" * 4)[:63]]
+    toks = [t for t in toks if "\x00" not in t]
     reqs = []
     for s in strs:
         reqs.append({"m": "quote", "op": "sanitize", "s": chars(s)})
@@ -116,13 +118,33 @@ def function_level(ctx):
                     ctx.disagree("path_to_filesystem vs model", {"sane": s}, impl, a)
             elif "unsafe" not in a:
                 ctx.disagree("path_to_filesystem vs model", {"sane": s}, impl, a)
+    # the token-name check is a local function of sync(): its verdict is read off the real sync() — "Malformed token" or not
+    tok_app = App({"auth": {"type": "none"}})
+    tok_app.request("MKCALENDAR", "/u/t/", login="u:pw")
+    tok_coll = next(iter(tok_app.storage.discover("/u/t/")))
+
+    def real_token_ok(t):
+        try:
+            with tok_app.storage.acquire_lock("r"):
+                tok_coll.sync("http://radicale.org/ns/sync/" + t)
+            return True
+        except ValueError as e:
+            return not str(e).startswith("Malformed token")
+        except Exception:
+            return True
+    toks = [t for t in toks if "\x00" not in t]
     for t in toks:
-        impl = len(t) == 64 and all(c in "0123456789abcdef" for c in t)
+        impl = real_token_ok(t)
+        spec = len(t) == 64 and all(c in "0123456789abcdef" for c in t)
         ctx.case("fn:token", sample={"t": t[:20] + "..", "ok": impl}, key=["tok", t], nontrivial=impl)
+        if impl != spec:
+            ctx.violation("sync() %s the token name %r (a token name is 64 lower-case hex digits)" % ("accepts" if impl else "refuses", t[:120]),
+                          {"token": t[:200]}, spec, impl)
         if ans is not None:
             if ans[k]["r"] != impl:
                 ctx.disagree("token name check vs model", {"t": t}, impl, ans[k]["r"])
             k += 1
+    tok_app.close()
 
 
 def shell_level(ctx):
@@ -159,6 +181,7 @@ def shell_level(ctx):
 
 
 ALLOWED_PREFIXES = None
+HEX64 = "0123456789abcdef" * 4
 
 
 def allowed_outside(path):
@@ -185,6 +208,8 @@ def end_to_end(ctx):
         f.write(scenarios.ev("decoy", MARKER))
     with open(os.path.join(base, "secret.ics"), "w") as f:
         f.write(scenarios.ev("decoy2", MARKER))
+    with open(os.path.join(decoy, HEX64), "w") as f:           # a file outside the storage whose name looks like a sync-token name
+        f.write(MARKER)
     rec = fsobs.Recorder()
     # the hook program records its argument vector: arguments end with RS (036), invocations with GS (035)
     script = os.path.join(base, "hookrec")
@@ -250,7 +275,11 @@ def end_to_end(ctx):
                 elif channel == "token":
                     method = "REPORT"
                     path = "/u/cal/"
-                    tok = rng.choice(["http://radicale.org/ns/sync/" + rng.choice(["../../../decoy/secret.ics", "a" * 64, "../" * 21 + "a", "." * 64, "0" * 63 + "/"]),
+                    # (names that end in 64 hex digits after something else: a path to an existing file outside the storage, relative and absolute)
+                    tok = rng.choice(["http://radicale.org/ns/sync/" + rng.choice(["../../../decoy/secret.ics", "a" * 64, "../" * 21 + "a", "." * 64, "0" * 63 + "/",
+                                                                                   "../" * rng.randint(1, 8) + "decoy/" + HEX64, decoy + "/" + HEX64,
+                                                                                   "x/" + HEX64, "../" + HEX64, "." + HEX64, HEX64 + "/../" + HEX64,
+                                                                                   HEX64.upper(), HEX64[:63], HEX64 + "0"]),
                                       "../../secret.ics", hostile])
                     body = ('<?xml version="1.0"?><D:sync-collection xmlns:D="DAV:"><D:sync-token>%s</D:sync-token><D:prop><D:getetag/></D:prop>'
                             '</D:sync-collection>' % xml_escape("".join(c for c in tok if ord(c) >= 32)))
